@@ -6,7 +6,7 @@ NOTES = ("All checks are runtime monitors: the real library is driven by generat
 NOT_APPLICABLE = {}
 TEXT = {}
 TEXT["C13"] = {
-    "level": ("Exhaustive over small naturals, power-of-two neighbourhoods, all short byte strings and all window ranges; sampled elsewhere. "
+    "level": ("Exhaustive over small naturals, power-of-two neighbourhoods up to 2^63 (beyond the decodable range nothing may read back as another number), all short byte strings and all window ranges; sampled elsewhere. "
               "Every library result is compared with a from-the-specification bit-list model, so the check decides the property on each "
               "explored input; inputs outside the explored sets are not covered."),
     "design_ref": "DESIGN.md section 5, C13",
@@ -30,7 +30,7 @@ TEXT["C11"] = {
 }
 TEXT["C18"] = {
     "level": ("Exhaustive enumeration of all DAG shapes up to 7 (8) nodes under three sharing policies, each compared with a naive recursive reference and with "
-              "direct structural statements; random larger shapes on top. Decides the property for the enumerated shapes."),
+              "direct structural statements; random larger shapes on top, and real Redeem/Commit node DAGs from the program generator under the library's own trackers, through both the borrowed and the owned view, with all four iterators and is_shared_as against a recursive reference. Decides the property for the enumerated shapes."),
     "design_ref": "DESIGN.md section 5, C18",
     "note": "trusts the naive reference walker in harness/src/c18.rs",
     "technique": "reference-model monitor over an exhaustive shape enumeration through the public DagLike trait",
@@ -58,20 +58,20 @@ TEXT["C04"] = {
 }
 TEXT["C09"] = {
     "level": ("Every node kind and conversion path of tens of thousands of generated programs is compared with an independent from-scratch hasher; decides root stability on each explored "
-              "program, witness assignment and hidden set. Injectivity is monitored, not proved."),
+              "program, witness assignment and hidden set. The text parser's and the policy compiler's ways of building nodes are included. Injectivity is monitored, not proved."),
     "design_ref": "DESIGN.md section 5, C09",
     "note": "trusts the harness SHA-256 and tag strings (harness/src/{sha,ast}.rs)",
     "technique": "reference-model monitor (from-scratch Merkle hasher) across node kinds and conversions",
 }
 TEXT["C01"] = {
     "level": ("Tens of thousands (thorough: millions) of generated programs with every node kind and sharing pattern are round-tripped at redemption and commitment time and compared node by node; "
-              "the byte strings are additionally read by an independent bit-level parser, so an encoder and decoder that are wrong in the same way are still caught."),
+              "the byte strings are additionally read by an independent bit-level parser, so an encoder and decoder that are wrong in the same way are still caught; commitment-time roots are compared with the redemption-time ones and witness nodes with different values must not share an identity root."),
     "design_ref": "DESIGN.md section 5, C01",
     "note": "trusts the harness's program parser (harness/src/enc.rs), inference and value model",
     "technique": "round-trip monitor with an independent bit-level parser as reference model",
 }
 TEXT["C02"] = {
-    "level": ("Totality is observed, not proved: every decoder call runs under panic capture, a counting allocator, a proportional time budget and process-death attribution; "
+    "level": ("Totality is observed, not proved: every decoder call runs under panic capture, a counting allocator, process-death attribution and a watchdog (wall-clock time itself is telemetry); "
               "canonicity is checked by re-encoding every accepted input and by positive controls that violate one rule each. Covers the explored strings only; depth-related crashes are listed findings."),
     "design_ref": "DESIGN.md section 5, C02",
     "note": "trusts the harness encoder/parser for the hand-assembled inputs; stack size pinned to 8 MiB so that recursion findings are keyed on depth",
@@ -79,7 +79,7 @@ TEXT["C02"] = {
 }
 TEXT["C07"] = {
     "level": ("The machine's real resource use is observed through the off-by-default hook on every run of generated nesting-heavy programs (successful and failing), in an assertion-enabled and a plain "
-              "release build, and the hard-limit refusal is checked on enumerated programs whose true bounds straddle the limits (including bounds that overflow machine integers)."),
+              "release build, and the hard-limit refusal is checked on enumerated programs whose true bounds straddle the limits (including bounds that overflow machine integers, and wide source/target types whose sum with the extra cells crosses the limit)."),
     "design_ref": "DESIGN.md section 5, C07",
     "note": "trusts the hook (src/bit_machine: verif_stats / verif_take_frame_oob) and the u128 bound re-computation in harness/src/c07.rs",
     "technique": "invariant hook (high-water marks, frame-bounds counter) + allocation monitor over nesting-biased programs and limit bombs, two build profiles",
@@ -93,7 +93,7 @@ TEXT["C12"] = {
 }
 TEXT["C03"] = {
     "level": ("Differential monitoring against the vendored C reference on generated, mutated and random byte pairs; every pair is decided (agree / disagree / C-side limit). "
-              "Thousands of both-accept cases per quick run carry the root and cost comparison; agreement on rejection alone is not counted as sufficient (counter floor)."),
+              "Thousands of both-accept cases per quick run carry the root and cost comparison; agreement on rejection alone is not counted as sufficient (counter floor); witnesses of every bit length 0..1100 (thorough ..4200) are included."),
     "design_ref": "DESIGN.md section 5, C03",
     "note": "trusts libsimplicity (C) as the specification and the simplicity-sys test bindings used to reach it (C14 monitors those bindings)",
     "technique": "differential monitor against the vendored C implementation over generated/mutated/random encodings",
@@ -135,13 +135,13 @@ TEXT["C16"] = {
 }
 TEXT["C17"] = {
     "level": ("Thousands of generated commit programs and generated source texts pushed through render + parse with CMR, node list, types and encoding compared; "
-              "tens of thousands of arbitrary, token-soup, mutated and deeply nested strings through the parser with panics, process deaths and hangs monitored."),
+              "the repository's command-line tool driven as a subprocess (disassemble / assemble / relabel); tens of thousands of arbitrary, token-soup, mutated and deeply nested strings through the parser with panics, process deaths and hangs monitored."),
     "design_ref": "DESIGN.md section 5, C17",
     "note": "trusts the harness program generator and its CMR model (ast.rs)",
     "technique": "round-trip monitor over generated programs and source texts; crash / panic / hang monitor over arbitrary and deeply nested strings",
 }
 TEXT["C20"] = {
-    "level": ("Thousands of rounds in which up to 16 threads repeat every library operation on shared and private objects and each result is compared with the one-at-a-time result, "
+    "level": ("Thousands of rounds in which up to 16 threads repeat every library operation on shared and private objects and each result is compared with the one-at-a-time result; fresh child processes whose first library calls happen on 16 threads at once are compared with a process that ran them one at a time; "
               "repeated under ThreadSanitizer and AddressSanitizer with the C code instrumented; decides only the interleavings the scheduler produced (overlap counts in the evidence)."),
     "design_ref": "DESIGN.md section 5, C20",
     "note": "race detection is limited to memory accesses ThreadSanitizer instruments (Rust std rebuilt with -Zbuild-std, C compiled with -fsanitize=thread)",
